@@ -6,7 +6,7 @@ from sim import controller_sim as cs
 PROPERTY = "C07"
 ISOLATE = True
 TIERS = {
-    "quick": {"runs": 6000, "budget_s": 100, "timeout_s": 40, "chunk": 16, "det_sample": 48, "det_runs": 300},
+    "quick": {"runs": 6000, "budget_s": 150, "timeout_s": 120, "chunk": 16, "det_sample": 48, "det_runs": 300},
     "thorough": {"runs": 120000, "budget_s": 1500, "timeout_s": 120, "chunk": 16, "det_sample": 64, "det_runs": 1000},
 }
 RULE = ("seeded plans: (fixed-step solver, backend, dt, t_start, range formed as t_start+N*dt / decimal literal / non-integer "
